@@ -228,35 +228,48 @@ def applyImport : Policy → Nat → Addr → Bool × Addr
 def samePath (src pid : Nat) (a : Path) : Bool := addrKey a.src == addrKey src && a.pid == pid
 def fromAddr (k : Nat) (a : Path) : Bool := addrKey a.src == k
 
+/-- The stored path matching a predicate, and the list without it.  (`Table::insert`/`remove`
+    match on (remote address, path id), which identifies at most one stored path.) -/
+def extract (f : Path → Bool) : List Path → Option (Path × List Path)
+  | [] => none
+  | a :: t =>
+    if f a then some (a, t)
+    else match extract f t with
+      | some (r, t') => some (r, a :: t')
+      | none => none
+
 /-- `Table::lookup_nexthop` -/
 def lookupNexthop (paths : List Path) (src pid : Nat) : Option Addr :=
-  (paths.find? (samePath src pid)).map (·.nh)
+  match extract (samePath src pid) paths with
+  | some (r, _) => some r.nh
+  | none => none
 
 def mkChange (pfx : Pfx) (bc ac : Bool) (paths : List Path) : Change :=
   ⟨pfx, bc, ac, eligible paths⟩
 
 /-- `Table::insert` on the destination's path list.  `e.uid` holds a fresh id, used when nothing is
-    replaced.  (At most one stored path matches (address, path id).) -/
+    replaced. -/
 def insertPaths (pfx : Pfx) (paths : List Path) (e : Path) : List Path × Option Change :=
   let oldKey := bestKey paths
-  let replaced := paths.find? (samePath e.src e.pid)
-  let rest := paths.filter (fun a => !samePath e.src e.pid a)
-  let e' := match replaced with
-    | some r => { e with uid := r.uid }
-    | none => e
-  let paths' := insertSorted e' rest
-  let bc := oldKey != bestKey paths'
-  let ac := !e.flt || (match replaced with | some r => !r.flt | none => false)
-  (paths', if !bc && !ac then none else some (mkChange pfx bc ac paths'))
+  match extract (samePath e.src e.pid) paths with
+  | some (r, rest) =>
+    let paths' := insertSorted { e with uid := r.uid } rest
+    let bc := oldKey != bestKey paths'
+    let ac := !e.flt || !r.flt
+    (paths', if !bc && !ac then none else some (mkChange pfx bc ac paths'))
+  | none =>
+    let paths' := insertSorted e paths
+    let bc := oldKey != bestKey paths'
+    let ac := !e.flt
+    (paths', if !bc && !ac then none else some (mkChange pfx bc ac paths'))
 
 /-- `Table::remove`: (new list, change, next hop of the removed path); `none` when nothing matches. -/
 def removePaths (pfx : Pfx) (paths : List Path) (src pid : Nat) :
     Option (List Path × Option Change × Addr) :=
-  match paths.find? (samePath src pid) with
+  match extract (samePath src pid) paths with
   | none => none
-  | some r =>
+  | some (r, rest) =>
     let oldKey := bestKey paths
-    let rest := paths.filter (fun a => !samePath src pid a)
     if rest.isEmpty then
       some (rest, (if !r.flt then some ⟨pfx, true, true, []⟩ else none), r.nh)
     else
@@ -271,7 +284,7 @@ def dropPaths (pfx : Pfx) (paths : List Path) (sel : Path → Bool) :
   if !paths.any sel then (paths, none, [])
   else
     let oldId := bestId paths
-    let removedAnyUnfiltered := paths.any (fun e => sel e && !e.flt && !e.inv)
+    let removedAnyUnfiltered := paths.any (fun e => sel e && (!e.flt && !e.inv))
     let nhs := (paths.filter sel).map (·.nh)
     let rest := paths.filter (fun e => !sel e)
     if !removedAnyUnfiltered then (rest, none, nhs)
@@ -311,6 +324,16 @@ def setDest (ds : List Dest) (p : Pfx) (paths : List Path) : List Dest :=
   else if ds.any (fun d => d.pfx == p) then ds.map (fun d => if d.pfx == p then ⟨p, paths⟩ else d)
   else ds ++ [⟨p, paths⟩]
 
+/-- Apply a per-destination function to every destination (the shard / family / hash-map loops of
+    the `TableManager`); an emptied destination is deleted.  Requests of different destinations
+    never share a key, so their relative order is immaterial. -/
+def trav (f : Pfx → List Path → List Path × List Req) : List Dest → List Dest × List Req
+  | [] => ([], [])
+  | d :: ds =>
+    let r := f d.pfx d.paths
+    let rs := trav f ds
+    ((if r.1.isEmpty then rs.1 else ⟨d.pfx, r.1⟩ :: rs.1), r.2 ++ rs.2)
+
 -- ---------------------------------------------------------------- TableManager operations
 
 def ridOf (cfg : Cfg) (src : Nat) : Nat := if isPeer src then (cfg.rids[src]?).getD 0 else 0
@@ -318,86 +341,79 @@ def sidOf (st : St) (src : Nat) : Nat :=
   if src == srcLocal then 0 else if src == srcKernel then 1 else (st.cur[src]?).getD 0
 def validSrc (cfg : Cfg) (src : Nat) : Bool := src == srcLocal || src == srcKernel || src < cfg.rids.length
 
-/-- `TableManager::insert_route` -/
+def distOpt (cfg : Cfg) : Option Change → List Req
+  | some c => distribute cfg c
+  | none => []
+
+/-- `TableManager::insert_route` on the destination of the prefix. -/
+def insertDest (cfg : Cfg) (policy : Policy) (invalid : List Addr) (p : Pfx) (paths : List Path)
+    (src sid pid : Nat) (nh0 : Addr) (lp cl : Nat) (rts : List Nat) (fresh : Nat) : List Path × List Req :=
+  let oldNh := lookupNexthop paths src pid
+  let pr := applyImport policy src nh0
+  let e : Path := { src := src, sid := sid, pid := pid, nh := pr.2, flt := pr.1,
+                    inv := invalid.contains pr.2, stale := false, aid := fresh, uid := fresh + 1,
+                    lp := lp, eb := isPeer src, cl := cl, rid := ridOf cfg src, rts := rts }
+  let r := insertPaths p paths e
+  (r.1, nhtRegister src pr.2 oldNh ++ distOpt cfg r.2)
+
 def insertRoute (cfg : Cfg) (st : St) (src : Nat) (p : Pfx) (pid : Nat) (nh0 : Addr)
     (lp cl : Nat) (rts : List Nat) : St × List Req :=
-  let paths := lookupDest st.dests p
-  let oldNh := lookupNexthop paths src pid
-  let (filtered, nh) := applyImport st.policy src nh0
-  let inv := st.invalid.contains nh
-  let e : Path := { src := src, sid := sidOf st src, pid := pid, nh := nh, flt := filtered, inv := inv,
-                    stale := false, aid := st.next, uid := st.next + 1, lp := lp, eb := isPeer src,
-                    cl := cl, rid := ridOf cfg src, rts := rts }
-  let (paths', ch) := insertPaths p paths e
-  let st' := { st with dests := setDest st.dests p paths', next := st.next + 2 }
-  (st', nhtRegister src nh oldNh ++ (match ch with | some c => distribute cfg c | none => []))
+  let r := insertDest cfg st.policy st.invalid p (lookupDest st.dests p) src (sidOf st src) pid nh0 lp cl rts st.next
+  ({ st with dests := setDest st.dests p r.1, next := st.next + 2 }, r.2)
 
-/-- `TableManager::remove_route` -/
-def removeRoute (cfg : Cfg) (st : St) (src : Nat) (p : Pfx) (pid : Nat) : St × List Req :=
-  match removePaths p (lookupDest st.dests p) src pid with
-  | none => (st, [])
+/-- `TableManager::remove_route` on the destination of the prefix. -/
+def removeDest (cfg : Cfg) (p : Pfx) (paths : List Path) (src pid : Nat) : List Path × List Req :=
+  match removePaths p paths src pid with
+  | none => (paths, [])
   | some (rest, ch, oldNh) =>
-    ({ st with dests := setDest st.dests p rest },
-     (match ch with | some c => distribute cfg c | none => []) ++
-     (if isPeer src then [Req.unreg oldNh] else []))
+    (rest, distOpt cfg ch ++ (if isPeer src then [Req.unreg oldNh] else []))
 
-/-- `TableShard::disconnected` / `TableShard::drop_stale` over every destination. -/
-def dropAll (cfg : Cfg) (sel : Path → Bool) : List Dest → List Dest × List Req
-  | [] => ([], [])
-  | d :: ds =>
-    let (rest, ch, nhs) := dropPaths d.pfx d.paths sel
-    let (ds', reqs) := dropAll cfg sel ds
-    ((if rest.isEmpty then ds' else ⟨d.pfx, rest⟩ :: ds'),
-     (match ch with | some c => distribute cfg c | none => []) ++ nhs.map Req.unreg ++ reqs)
+def removeRoute (cfg : Cfg) (st : St) (src : Nat) (p : Pfx) (pid : Nat) : St × List Req :=
+  let r := removeDest cfg p (lookupDest st.dests p) src pid
+  ({ st with dests := setDest st.dests p r.1 }, r.2)
 
-/-- `TableShard::mark_stale` over every destination. -/
-def restaleAll (cfg : Cfg) (k : Nat) : List Dest → List Dest × List Req
-  | [] => ([], [])
-  | d :: ds =>
-    let (paths', ch) := restalePaths d.pfx d.paths k
-    let (ds', reqs) := restaleAll cfg k ds
-    (⟨d.pfx, paths'⟩ :: ds', (match ch with | some c => distribute cfg c | none => []) ++ reqs)
+/-- `TableShard::disconnected` / `TableShard::drop_stale` on one destination. -/
+def dropDest (cfg : Cfg) (sel : Path → Bool) (p : Pfx) (paths : List Path) : List Path × List Req :=
+  let r := dropPaths p paths sel
+  (r.1, distOpt cfg r.2.1 ++ r.2.2.map Req.unreg)
 
-/-- `TableManager::update_nexthop_validity` (table part) over every destination. -/
-def validityAll (cfg : Cfg) (a : Addr) (reachable : Bool) : List Dest → List Dest × List Req
-  | [] => ([], [])
-  | d :: ds =>
-    let (paths', ch) := validityPaths d.pfx d.paths a reachable
-    let (ds', reqs) := validityAll cfg a reachable ds
-    (⟨d.pfx, paths'⟩ :: ds', (match ch with | some c => distribute cfg c | none => []) ++ reqs)
+/-- `TableShard::mark_stale` on one destination. -/
+def restaleDest (cfg : Cfg) (k : Nat) (p : Pfx) (paths : List Path) : List Path × List Req :=
+  let r := restalePaths p paths k
+  (r.1, distOpt cfg r.2)
+
+/-- `TableManager::update_nexthop_validity` (table part) on one destination. -/
+def validityDest (cfg : Cfg) (a : Addr) (reachable : Bool) (p : Pfx) (paths : List Path) :
+    List Path × List Req :=
+  let r := validityPaths p paths a reachable
+  (r.1, distOpt cfg r.2)
 
 /-- One path of `TableShard::soft_reset_in`: re-apply the import policy to the stored path
     (`collect_adj_in_paths` hands over the stored next hop) and re-insert it. -/
 def softOne (cfg : Cfg) (policy : Policy) (invalid : List Addr) (pfx : Pfx)
     (paths : List Path) (old : Path) : List Path × List Req :=
   let oldNh := lookupNexthop paths old.src old.pid
-  let (filtered, nh) := applyImport policy old.src old.nh
-  let inv := invalid.contains nh
-  let nht := if isPeer old.src && oldNh != some nh then
-      Req.reg nh :: (match oldNh with | some o => [Req.unreg o] | none => [])
+  let pr := applyImport policy old.src old.nh
+  let nht := if isPeer old.src && oldNh != some pr.2 then
+      Req.reg pr.2 :: (match oldNh with | some o => [Req.unreg o] | none => [])
     else []
-  let e : Path := { old with nh := nh, flt := filtered, inv := inv }
-  let (paths', ch) := insertPaths pfx paths e
-  (paths', nht ++ (match ch with | some c => distribute cfg c | none => []))
+  let e : Path := { old with nh := pr.2, flt := pr.1, inv := invalid.contains pr.2 }
+  let r := insertPaths pfx paths e
+  (r.1, nht ++ distOpt cfg r.2)
 
 def softPaths (cfg : Cfg) (policy : Policy) (invalid : List Addr) (pfx : Pfx) :
     List Path → List Path → List Path × List Req
   | [], paths => (paths, [])
   | o :: os, paths =>
-    let (paths', r1) := softOne cfg policy invalid pfx paths o
-    let (paths'', r2) := softPaths cfg policy invalid pfx os paths'
-    (paths'', r1 ++ r2)
+    let r1 := softOne cfg policy invalid pfx paths o
+    let r2 := softPaths cfg policy invalid pfx os r1.1
+    (r2.1, r1.2 ++ r2.2)
 
-/-- `TableManager::soft_reset_in`: per destination, the non-stale paths of the peer as collected
+/-- `TableShard::soft_reset_in` on one destination: the non-stale paths of the peer as collected
     before any re-insertion, processed in that order. -/
-def softAll (cfg : Cfg) (policy : Policy) (invalid : List Addr) (k : Nat) :
-    List Dest → List Dest × List Req
-  | [] => ([], [])
-  | d :: ds =>
-    let todo := d.paths.filter (fun e => fromAddr k e && !e.stale)
-    let (paths', r1) := softPaths cfg policy invalid d.pfx todo d.paths
-    let (ds', r2) := softAll cfg policy invalid k ds
-    (⟨d.pfx, paths'⟩ :: ds', r1 ++ r2)
+def softDest (cfg : Cfg) (policy : Policy) (invalid : List Addr) (k : Nat) (p : Pfx)
+    (paths : List Path) : List Path × List Req :=
+  softPaths cfg policy invalid p (paths.filter (fun e => fromAddr k e && !e.stale)) paths
 
 def setCur (cur : List Nat) (k v : Nat) : List Nat := cur.set k v
 
@@ -421,35 +437,36 @@ def St.init (cfg : Cfg) : St :=
   { dests := [], cur := (List.range cfg.rids.length).map (· + 2), next := cfg.rids.length + 2,
     invalid := [], policy := [] }
 
-/-- One history step on the `TableManager`; the requests are in the order they are sent. -/
+/-- One history step on the `TableManager`; requests in the order they are sent (up to the
+    interleaving of different destinations). -/
 def step (cfg : Cfg) (st : St) : Op → St × List Req
   | .ins src p pid nh lp cl rts => insertRoute cfg st src p pid nh lp cl rts
   | .rm src p pid => removeRoute cfg st src p pid
   | .down k =>
-      let (ds, reqs) := dropAll cfg (fromAddr k) st.dests
-      ({ st with dests := ds, cur := setCur st.cur k st.next, next := st.next + 1 }, reqs)
+      let r := trav (dropDest cfg (fromAddr k)) st.dests
+      ({ st with dests := r.1, cur := setCur st.cur k st.next, next := st.next + 1 }, r.2)
   | .stale k =>
-      let (ds, reqs) := restaleAll cfg k st.dests
-      ({ st with dests := ds, cur := setCur st.cur k st.next, next := st.next + 1 }, reqs)
+      let r := trav (restaleDest cfg k) st.dests
+      ({ st with dests := r.1, cur := setCur st.cur k st.next, next := st.next + 1 }, r.2)
   | .purge k =>
-      let (ds, reqs) := dropAll cfg (fun e => fromAddr k e && e.stale) st.dests
-      ({ st with dests := ds }, reqs)
+      let r := trav (dropDest cfg (fun e => fromAddr k e && e.stale)) st.dests
+      ({ st with dests := r.1 }, r.2)
   | .soft k =>
-      let (ds, reqs) := softAll cfg st.policy st.invalid k st.dests
-      ({ st with dests := ds }, reqs)
+      let r := trav (softDest cfg st.policy st.invalid k) st.dests
+      ({ st with dests := r.1 }, r.2)
   | .pol rules => ({ st with policy := rules }, [])
   | .nh a reachable =>
       let invalid := if reachable then st.invalid.filter (· != a)
                      else if st.invalid.contains a then st.invalid else a :: st.invalid
-      let (ds, reqs) := validityAll cfg a reachable st.dests
-      ({ st with dests := ds, invalid := invalid }, reqs)
+      let r := trav (validityDest cfg a reachable) st.dests
+      ({ st with dests := r.1, invalid := invalid }, r.2)
 
 /-- The run: after every op, the requests it caused and the table contents. -/
 def runFrom (cfg : Cfg) : St → List Op → List (List Req × List Dest)
   | _, [] => []
   | st, op :: ops =>
-    let (st', reqs) := step cfg st op
-    (reqs, st'.dests) :: runFrom cfg st' ops
+    let r := step cfg st op
+    (r.2, r.1.dests) :: runFrom cfg r.1 ops
 
 def run (cfg : Cfg) (ops : List Op) : List (List Req × List Dest) := runFrom cfg (St.init cfg) ops
 
